@@ -72,8 +72,14 @@ fn case_from_json(v: &Value) -> Option<Case> {
 
 pub fn src_strategy(weights: [u32; 9], edge_weight: u32) -> BoxedStrategy<Src> {
     let corner_weight = edge_weight.min(3);
+    if std::env::var("A5VERIF_C01_ONLY_CORNERS").is_ok() {
+        // experiment switch: only points within rounding .. 1e-6 cell sizes of a cell corner
+        return (gen::cell_spec(2, 29), 0u8..5, prop_oneof![1 => Just(-300.0f64), 1 => -14.0f64..-6.0], -0.5f64..1.5)
+            .prop_map(|(cell, corner, log_rho, frac)| Src::Corner { cell, corner, log_rho, frac })
+            .boxed();
+    }
     prop_oneof![
-        corner_weight => (gen::cell_spec(2, 29), 0u8..5, prop_oneof![1 => -3.0f64..-0.7, 2 => -2.3f64..-1.0], prop_oneof![
+        corner_weight => (gen::cell_spec(2, 29), 0u8..5, prop_oneof![2 => -3.0f64..-0.7, 4 => -2.3f64..-1.0, 2 => -12.0f64..-3.0, 1 => Just(-300.0f64)], prop_oneof![
                 2 => -0.5f64..1.5,
                 3 => (0.0f64..1.0, any::<bool>()).prop_map(|(u, s)| { let d = 10f64.powf(-3.5 + 2.7 * u); if s { d } else { -d } }),
                 3 => (0.0f64..1.0, any::<bool>()).prop_map(|(u, s)| { let d = 10f64.powf(-3.5 + 2.7 * u); if s { 1.0 - d } else { 1.0 + d } }),
@@ -162,7 +168,7 @@ impl Src {
                 let q = [a[0] + rho * ang.cos(), a[1] + rho * ang.sin()];
                 let v = api::inverse(q, c.face)?;
                 let (lon, lat) = lonlat_of_vec(v);
-                Ok((lon, lat.clamp(-90.0, 90.0), "corner-wedge"))
+                Ok((lon, lat.clamp(-90.0, 90.0), if *log_rho < -3.0 { "on-a-corner(within rounding .. 1e-3 cell sizes)" } else { "corner-wedge" }))
             }
         }
     }
